@@ -1,0 +1,22 @@
+//go:build verif
+
+package littleendian
+
+// Machine-checked contracts for /verif (read as text by the VC generator; no code).
+// le16/le32/le64: see /verif/contracts/lemmas/encoding_binary.contracts.
+//
+//@ func Uint64ToBytes
+//@   ensures  len(result) == 8 && le64(result) == n && fresh(result)
+//@ func BytesToUint64
+//@   requires len(b) >= 8
+//@   ensures  result == le64(b)
+//@ func Uint32ToBytes
+//@   ensures  len(result) == 4 && le32(result) == n && fresh(result)
+//@ func BytesToUint32
+//@   requires len(b) >= 4
+//@   ensures  result == le32(b)
+//@ func Uint16ToBytes
+//@   ensures  len(result) == 2 && le16(result) == n && fresh(result)
+//@ func BytesToUint16
+//@   requires len(b) >= 2
+//@   ensures  result == le16(b)
